@@ -332,13 +332,13 @@ def check(run, replay):
                                                    "source": open(os.path.join(d, "src", f)).read(),
                                                    "how": "cppcheck -q --dump f  vs  MALLOC_MMAP_THRESHOLD_=64 cppcheck -q --dump f (no hook needed): the <variables> sections list the same variables in a different order"})
                                     continue
-                                # known finding: only the order of the <container> elements differs
+                                # diagnosis (fixed by 0cfaf99, must not come back): only the order of the <container> elements differs
                                 ja, _ = dump_items(normalize_containers(A))
                                 jb, _ = dump_items(normalize_containers(B))
                                 _, mo3, _ = vlib.run_lines([model], [vlib.enc_case([b"canoneq"] + ja + [b"|"] + jb)])
                                 if vlib.dec_line(mo3[0]) == [b"1"]:
                                     run.extra["containerorder_cases"] = run.extra.get("containerorder_cases", 0) + 1
-                                    run.violation(K_CONTORDER, "the <container> elements of the dump's <containers> section come in pointer order (std::set<const Library::Container*>)",
+                                    run.violation(K_CONTORDER, "dump of %s differs between environment %s and %s: the <container> elements of the <containers> section come in a different order (pointer order? fix 0cfaf99 missing?)" % (f, ref[0], envspec[0]),
                                                   {"file": f, "env_a": ref[0], "env_b": envspec[0], "env_b_settings": envspec[2],
                                                    "source": open(os.path.join(d, "src", f)).read(),
                                                    "how": "a file using two library containers (std::vector and std::map): cppcheck -q --dump f.cpp  vs  "
